@@ -20,6 +20,16 @@ theorem field_header_disambiguated : @Generated.Funcs.field_header_disambiguated
 theorem routing_param_disambiguated_field : @Generated.Funcs.routing_param_disambiguated_field = @Pinned.Funcs.routing_param_disambiguated_field := rfl
 theorem client_method_name : @Generated.Funcs.client_method_name = @Pinned.Funcs.client_method_name := rfl
 theorem sort_lines : @Generated.Funcs.sort_lines = @Pinned.Funcs.sort_lines := rfl
+theorem service_client_name : @Generated.Funcs.service_client_name = @Pinned.Funcs.service_client_name := rfl
+theorem service_async_client_name : @Generated.Funcs.service_async_client_name = @Pinned.Funcs.service_async_client_name := rfl
+theorem service_transport_name : @Generated.Funcs.service_transport_name = @Pinned.Funcs.service_transport_name := rfl
+theorem service_grpc_transport_name : @Generated.Funcs.service_grpc_transport_name = @Pinned.Funcs.service_grpc_transport_name := rfl
+theorem service_grpc_asyncio_transport_name : @Generated.Funcs.service_grpc_asyncio_transport_name = @Pinned.Funcs.service_grpc_asyncio_transport_name := rfl
+theorem service_rest_transport_name : @Generated.Funcs.service_rest_transport_name = @Pinned.Funcs.service_rest_transport_name := rfl
+theorem service_module_name : @Generated.Funcs.service_module_name = @Pinned.Funcs.service_module_name := rfl
+theorem naming_module_name : @Generated.Funcs.naming_module_name = @Pinned.Funcs.naming_module_name := rfl
+theorem new_naming_versioned_module_name : @Generated.Funcs.new_naming_versioned_module_name = @Pinned.Funcs.new_naming_versioned_module_name := rfl
+theorem old_naming_versioned_module_name : @Generated.Funcs.old_naming_versioned_module_name = @Pinned.Funcs.old_naming_versioned_module_name := rfl
 theorem metadata_doc : @Generated.Funcs.metadata_doc = @Pinned.Funcs.metadata_doc := rfl
 
 end GapicModel.Bridge.Funcs
